@@ -276,7 +276,22 @@ template <class V> struct Runner {
                     if (!fi_ok) break;
                     if (derived_field) continue;      // overwritten by write_serialization: nothing to locate on the wire
                     Bytes ya, yb;
-                    try { ya = ser(*a); yb = ser(*b); } catch (std::exception&) { continue; }
+                    bool oka = true, okb = true;
+                    try { ya = ser(*a); } catch (std::exception& e_) { if (!mc::tins_exc(e_)) throw; oka = false; }
+                    try { yb = ser(*b); } catch (std::exception& e_) { if (!mc::tins_exc(e_)) throw; okb = false; }
+                    if (!oka || !okb) {
+                        // the serialization must follow the setter: if the prior state serializes and the same value set on a default
+                        // object serializes, then a failure here means the setter left the object in a state that depends on its history
+                        const V& bad = !oka ? basev : v;
+                        bool p_ok = true, d_ok = true;
+                        { std::unique_ptr<PDU> p(prior(pr)); try { (void)ser(*p); } catch (std::exception&) { p_ok = false; } }
+                        { std::unique_ptr<PDU> d(prior(0)); try { setv(*d, bad); (void)ser(*d); } catch (std::exception&) { d_ok = false; } }
+                        if (pr != 0 && p_ok && d_ok) {
+                            R.violation("field:unserializable-after-set:" + k, "the prior state serializes and " + k + "=" + show(bad) + " on a default object serializes, but not the prior state with " + k + " set to " + show(bad), ctx + " value=" + show(bad));
+                            fi_ok = false;
+                        } else R.count("serialization_refused_states");
+                        continue;
+                    }
                     if (ya.empty() || ya.size() != yb.size()) continue;
                     R.count("serializations", 2);
                     std::vector<long> diff;
